@@ -8,21 +8,25 @@ from ..rules.skeleton import Interp, Ptr, U, Budget, Stop
 from ..util import is_assign
 
 EXPLANATION = (
-    "Static decision of structural clauses of C15: (1) every slot of carquet_simd_dispatch_t is "
-    "assigned its scalar implementation unconditionally before any override; overrides are installed "
-    "in the order SSE4.2 < AVX2 < AVX-512, each under its CPU capability test, each kernel defined in "
-    "the translation unit built for that ISA and named for the slot it fills; every "
-    "carquet_dispatch_<slot> wrapper initialises the table and calls its own slot with its own "
-    "parameters; every hand-written extern prototype of a kernel equals the definition's type; (2) "
-    "access extents: the cursor arithmetic of every x86 kernel (SSE/AVX2/AVX-512 units, 60 kernels) "
-    "and of the scalar fallbacks is executed abstractly for every element count 0..N (N covers all "
-    "remainders of the widest unrolled stride) with buffer contents unknown; every vector/scalar load "
-    "and store (masked forms by their mask population) must lie inside the extent the slot's contract "
-    "gives each buffer ([0,count) elements), and output kernels must write every output byte; (3) the "
-    "match_copy kernels only use block copies as wide as the guarded match distance (rule shared with "
-    "C09.5), which is where an overlapping copy differs from the scalar byte loop. Decides "
-    "these clauses, not equality of outputs with the scalar definition; ARM kernels are not part of "
-    "this build.")
+    "Static decision of structural clauses of C15: (1) every slot of carquet_simd_dispatch_t is assigned "
+    "its scalar implementation unconditionally before any override; overrides are installed in the order "
+    "SSE4.2 < AVX2 < AVX-512, each under its CPU capability test, each kernel defined in the translation "
+    "unit built for that ISA and named for the slot it fills; every carquet_dispatch_<slot> wrapper "
+    "initialises the table and calls its own slot with its own parameters; every hand-written extern "
+    "prototype of a kernel equals the definition's type; (2) access extents: the cursor arithmetic of "
+    "every x86 kernel (SSE/AVX2/AVX-512 units, 60 kernels) and of the scalar fallbacks is executed "
+    "abstractly for every element count 0..N (N covers all remainders of the widest unrolled stride) with "
+    "buffer contents unknown; every vector/scalar load and store (masked forms by their mask population) "
+    "must lie inside the extent the slot's contract gives each buffer ([0,count) elements), and output "
+    "kernels must write every output byte; (3) the match_copy kernels only use block copies as wide as "
+    "the guarded match distance (rule shared with C09.5), which is where an overlapping copy differs from "
+    "the scalar byte loop. (4) a scalar leaves a vector at the width of its lanes: no 32-bit extraction "
+    "(_mm_cvtsi128_si32, _mm_extract_epi32, ...) from a value produced by 64-bit-lane intrinsics (a "
+    "64-bit kernel that does so keeps only the low half of a partial sum); every carquet_dispatch_<slot> "
+    "wrapper, executed abstractly with the table seeded with marker kernels and the initialiser hooked, "
+    "builds the table when it is not built and then calls exactly its own slot with its own arguments in "
+    "order. Decides these clauses, not equality of outputs with the scalar definition; ARM kernels are "
+    "not part of this build.")
 
 DP = "src/simd/dispatch.c"
 UNITS = {"sse": "src/simd/x86/sse_ops.c", "avx2": "src/simd/x86/avx2_ops.c", "avx512": "src/simd/x86/avx512_ops.c"}
